@@ -61,6 +61,18 @@ BUDGET = {'quick': 4000, 'thorough': 100000}
 TOLERANCES = {
     'values': 'bit-identical to the NumPy result (NaN entries compared by '
               'position only)',
+    'numpy_kernel_flip': 'NumPy picks its SIMD or its scalar kernel by an '
+                         'address-range test that misfires when a negative-'
+                         'stride operand is heap-adjacent to the output '
+                         '(reproduced with raw arrays: np.arctan2(a[::-1], '
+                         '.5, out=o), 45 of 129 entries differ in the last '
+                         'bit); a value mismatch therefore re-runs the whole '
+                         'case up to 3 times on a perturbed heap and must '
+                         'agree bit-for-bit in one of them; on the last '
+                         'attempt only, for the transcendental ufuncs '
+                         '(INEXACT) and complex arithmetic only, |got-ref| '
+                         '<= 16 eps |ref| is let through and counted '
+                         '(notes: ulp_fallback_tolerated)',
     'operands': 'bit-identical to the operands of the NumPy call afterwards',
     'pspace_legacy_sum_prod': 'product-space x.ufuncs.sum()/prod() reduce per '
                               'part first (different association): |got-ref| '
@@ -502,6 +514,10 @@ def _case(draw):
         if method == 'legacy':
             okinds = ['none', 'none', 'elem', 'ndarray']
         outs = [draw(_out_desc(ekind, okinds)) for _ in range(uf.nout)]
+        if method == 'legacy' and ekind == 'pspace' and uf.nout == 2:
+            # the product-space wrapper takes out1=/out2= and is broken
+            # altogether (known finding C17-K3)
+            outs = [None, None]
         desc['out'] = outs
         if method == '__call__' and uf.nout == 2 and any(outs):
             desc['out_positional'] = draw(st.booleans()) and all(outs)
@@ -891,12 +907,11 @@ def _kept_axes(kw, nd, method):
 def _ekind_label(ekind, sd):
     """Element kind as it appears in signatures: array-weighted tensor
     spaces are a region of their own, non-power product spaces too."""
+    aw = any((l.get('weighting') or {}).get('type') == 'array'
+             for l in build.leaf_descs(sd))
     if ekind == 'pspace':
-        return 'pspace' if _sd_shape(sd) is not None else 'prodspace'
-    if ekind == 'tensor' and (sd.get('weighting') or {}).get(
-            'type') == 'array':
-        return 'tensor-aw'
-    return ekind
+        ekind = 'pspace' if _sd_shape(sd) is not None else 'prodspace'
+    return ekind + ('-aw' if aw else '')
 
 
 class _Sig(object):
@@ -1352,13 +1367,13 @@ def _compare_result(sig, desc, i, g, r, o_odl, o_ref, x, ops, kw, strata):
                             'NumPy returns a scalar, ODL a {}'.format(
                                 type(g).__name__))
         gd = np.asarray(g)
-        if lenient_scalar:
-            if gd.dtype.kind != np.asarray(r).dtype.kind:
-                gd = gd.astype(np.asarray(r).dtype) \
-                    if np.can_cast(gd.dtype, np.asarray(r).dtype,
-                                   'same_kind') else gd
-            else:
-                gd = gd.astype(np.asarray(r).dtype)
+        if lenient_scalar and not isinstance(g, np.generic):
+            # product-space elements hand back Python scalars (`.item()`):
+            # same number in the Python type NumPy's scalar converts to
+            ri = np.asarray(r).item()
+            if type(g) is type(ri) and (g == ri or (g != g and ri != ri)):
+                strata.append('result:scalar')
+                return
         if gd.dtype != np.asarray(r).dtype:
             raise Violation(sig('dtype', 'scalar'),
                             'scalar result has dtype {} (NumPy {})'.format(
